@@ -88,7 +88,14 @@ func ruleDataMatrixMerge(c *Ctx) {
 	n.NoInline["utils.(*BitList).GetBit"] = true
 	setFn := c.P.Func("datamatrix.(*datamatrixCode).set")
 	var got []string
-	for _, call := range callsTo(fn, setFn) {
+	for _, site := range c.P.deepCallsTo(fn, setFn) {
+		// the drawing loops may live in unexported helpers of Merge: values are read in the calling context
+		call := site.Ins.(*ssa.Call)
+		savedCtx := n.Ctx
+		n.Ctx = site.Path
+		if site.Fn != fn {
+			c.Fn(c.P.FuncName(site.Fn))
+		}
 		// enclosing loops, innermost first
 		var loops []string
 		names := []string{"a", "b", "c", "d"}
@@ -123,6 +130,7 @@ func ruleDataMatrixMerge(c *Ctx) {
 		for _, v := range bound {
 			delete(n.Bind, v)
 		}
+		n.Ctx = savedCtx
 	}
 	sort.Strings(got)
 	cnd := func(s string) string { return MustRefCond(s).String() }
